@@ -87,6 +87,9 @@ def main():
     ctx = Ctx(pid, a.tier, a.seed, work)
     rc = 2
     try:
+        if pid in ("SETUP", "REGEN"):
+            rc = setup(ctx, build=(pid == "SETUP"))
+            sys.exit(rc)
         mod = importlib.import_module(f"props.{pid.lower()}")
         P = mod.PROP
         rc = run(P, ctx, a)
@@ -103,6 +106,34 @@ def main():
         if not a.keep:
             shutil.rmtree(work, ignore_errors=True)
     sys.exit(rc)
+
+
+def setup(ctx, build=True):
+    """./check setup: regenerate every data-derived Coq file from VERIF_REPO's working tree (coq/gen/*.v are
+    never taken from the commit: they describe whatever checkout the last run looked at), then build everything.
+    ./check regen: regeneration only."""
+    import glob
+    rc = 0
+    for f in sorted(glob.glob(os.path.join(HERE, "props", "c[0-9][0-9].py"))):
+        name = os.path.basename(f)[:-3]
+        src = open(f).read()
+        if "def regenerate" not in src:
+            continue
+        try:
+            P = importlib.import_module("props." + name).PROP
+            out("regenerated %s: %s" % (name.upper(), P.regenerate(ctx)))
+        except BaseException:
+            traceback.print_exc()
+            rc = 1
+    if build:
+        jobs = int(os.environ.get("VERIF_JOBS", "14"))
+        with fw.BuildLock():
+            fw.ensure_makefile()
+            r, log = fw.sh(["make", "-k", "-j", str(jobs)], cwd=fw.COQ, timeout=3000)
+        out(tail_err(log))
+        out("setup build rc=%d" % r)
+        rc = rc or r
+    return rc
 
 
 def run(P, ctx, a):
